@@ -297,3 +297,17 @@ CHECKS["C18"] = {
     "outside": ["go-eventlog's replay itself (contract stub)", "what verify.TdxQuote checks (C01-C07)"],
     "assumptions": ["verify.TdxQuote does not modify the quote (C16)", "ccel.ReplayAndExtract returns a state iff replaying the log reproduces every supplied register"],
 }
+
+CHECKS["C19"] = {
+    "groups": ["pki", "c19"],
+    "quick": {"match": "^H19", "budget": 900},
+    "thorough": {"match": "^[HT]19", "budget": 3000, "query_timeout_ms": 120000},
+    "replay": "model",
+    "what": "(a) verify.TdxQuote with a getter failing at a symbolic point: the returned error satisfies errors.As for *trust.AttestationRecreationErr "
+            "or verify.CRLUnavailableErr (model of errors.As / fmt.Errorf %w over the engine's error objects; all formats are constants); "
+            "(b) the check tool's main executed symbolically with flags, config message, file system, protobuf decoding and the verify / validate "
+            "verdicts modelled",
+    "bounds": {"see": "DESIGN.md C19"},
+    "outside": ["the real flag parsing, real protobuf decoding, process exit status and stderr of the built binary"],
+    "assumptions": PKI_ASSUME + ["errors.As walks %w / multierr wrapping; fmt.Errorf wraps exactly the operands of %w"],
+}
